@@ -510,11 +510,11 @@ def replay_chain(ck, rep, j, stride_pdf, traces, trace_stride,
         layers = [tuple(x) for x in r["l"]]
         payload = sr.CHAIN_PAYLOADS[n % len(sr.CHAIN_PAYLOADS)]
         # an LZW stage only tells /EarlyChange 0 from 1 beyond 253 codes: chains in which a value could reach the
-        # wrong stage (two LZW stages, one with /EarlyChange 0) always get the long payload, other chains with an
-        # /EarlyChange 0 stage every fourth time
+        # wrong stage (two LZW stages, one with /EarlyChange 0) get the long payload for every second dictionary shape,
+        # other chains with an /EarlyChange 0 stage for every eighth
         nlzw = sum(1 for l in layers if l[0] == "LZW")
         ec0 = any(l[0] == "LZW" and l[2] == 0 for l in layers)
-        if ec0 and (nlzw >= 2 or n % 4 == 0):
+        if ec0 and n % (2 if nlzw >= 2 else 8) == 0:
             payload = sr.LONG_PAYLOAD
             n_long += 1
         raw, parms = sr.chain_encode(layers, payload, n)
